@@ -1,4 +1,5 @@
 import IPT.Lemmas.Hijri
+import IPT.Lemmas.Civil
 /-
   C17 — Hijri conversion is the tabular Islamic calendar, day for day.
   Spec (independent of the code's search loops): the closed-form Reingold–Dershowitz inverse.
@@ -195,6 +196,9 @@ theorem leap_years_per_cycle :
     ((List.range 30).filter fun (y : Nat) => decide ((11 * (y : Int) + 14) % 30 < 11)).length = 11 := by decide
 
 /-- the tabular date determines the day: the mapping is one-to-one -/
+/- `round_trip` holds by cancellation for any day number; its use is `injective` below.  The converse
+   (`tabDate (tabFixed y m d) = (y, m, d)` for valid triples) is not proved: the link from the month
+   lengths of `tabFixed` to the months `tabDate` reports goes through `succ_day`. -/
 theorem round_trip (g : Int) : tabFixed (tabDate g).1 (tabDate g).2.1 (tabDate g).2.2 = g := by
   simp only [tabDate, tabFixed]; omega
 
@@ -209,6 +213,31 @@ theorem weekday_civil (dt : Date) (h1 : 1 ≤ gregAbsDate dt) (h2 : gregAbsDate 
   simp [weekdayRD, gregAbsDate_eq_toRD]
 
 -- non-vacuity: the epoch itself, a pre-epoch date, a modern date
+/-! ### stated on calendar dates -/
+
+/-- the range hypothesis of the theorems above, in calendar terms: every valid date (month 1..12, day
+    within the month) of the years 1..9999 satisfies it -/
+theorem valid_date_in_range (dt : Date) (hv : CivilLemmas.ValidDate dt) (h1 : 1 ≤ dt.y) (h2 : dt.y ≤ 9999) :
+    1 ≤ gregAbsDate dt ∧ gregAbsDate dt ≤ 3652059 := by
+  rw [gregAbsDate_eq_toRD]
+  exact CivilLemmas.valid_date_range dt hv h1 h2
+
+/-- **for every Gregorian date of the years 1 to 9999 the conversion succeeds with a month in 1..12, a
+    day in 1..30 and a weekday in 1..7** (so no accessor and no printing can panic), and the weekday
+    is the civil weekday of that date -/
+theorem no_panic_valid (dt : Date) (hv : CivilLemmas.ValidDate dt) (h1 : 1 ≤ dt.y) (h2 : dt.y ≤ 9999) :
+    ∃ h, hijriOf dt = some h ∧ h.monthOk = true ∧ 1 ≤ h.day ∧ h.day ≤ 30 ∧ 1 ≤ h.weekday ∧ h.weekday ≤ 7 ∧
+      h.weekday = weekdayRD (toRD dt) + 1 := by
+  obtain ⟨r1, r2⟩ := valid_date_in_range dt hv h1 h2
+  obtain ⟨h, e, a, b, c, d, f⟩ := no_panic dt r1 r2
+  obtain ⟨h', e', w⟩ := weekday_civil dt r1 r2
+  rw [e] at e'; simp only [Option.some.injEq] at e'; subst e'
+  exact ⟨h, e, a, b, c, d, f, w⟩
+
+-- non-vacuity: 29 February 2024 and 31 December 9999 are such dates
+example : CivilLemmas.ValidDate ⟨2024, 2, 29⟩ ∧ CivilLemmas.ValidDate ⟨9999, 12, 31⟩ := by
+  constructor <;> simp [CivilLemmas.ValidDate, CivilLemmas.dim, CivilLemmas.dbm, isLeap] <;> decide
+
 example : hijriOf ⟨622, 7, 19⟩ = some ⟨1, 1, 1, false, 6⟩ := by decide +kernel
 example : hijriOf ⟨1, 8, 8⟩ = some ⟨640, 1, 1, true, 4⟩ := by decide +kernel
 example : tabDate 738521 = (1444, 6, 8) := by decide
